@@ -65,7 +65,8 @@ def listDump (σ : Store) : String :=
   let a := ls.map fun k =>
     let e := match listEmpty σ (.head k) with | .ok b => b01 b | .error f => "fault:" ++ f.name
     s!"L{k}={walkStr (walk σ (.head k) walkCap)}|{walkStr (walkBack σ (.head k) walkCap)}|{e}"
-  let b := (allNodes.filter σ.live).map fun n => s!"{nodeName n}:{nodeName (σ.prev n)},{nodeName (σ.next n)}"
+  let nm := fun n => if σ.live n then nodeName n else "?"      -- a dangling link has no name
+  let b := (allNodes.filter σ.live).map fun n => s!"{nodeName n}:{nm (σ.prev n)},{nm (σ.next n)}"
   " ".intercalate (a ++ b)
 
 def callStr (st : Sig.State) (s init arg : Nat) : String :=
@@ -152,14 +153,6 @@ def familyOk (st : St) : Sig.Op → Bool → Bool
   | .moveAssign s s2, _ => st.plain.contains s == st.plain.contains s2
   | _, _ => true
 
-def sigToListOp : Sig.Op → Op
-  | .newSig s _ => .newList s
-  | .connect x s _ _ => .newElem x s
-  | .disconnect x => .delElem x
-  | .moveCtor s' s => .listMoveCtor s' s
-  | .moveAssign s s2 => .listMoveAssign s s2
-  | .delSig s => .delList s
-
 def advanceSpec (st : St) (op : Op) : Option Spec.Rings :=
   match st.spec with
   | some R => if Spec.valid R op then some (Spec.step R op) else none
@@ -186,7 +179,7 @@ def handle (st : St) (t : List String) : St × String :=
         | .newSig s _ => if p then s :: st.plain.erase s else st.plain.erase s
         | .moveCtor s2 s => if st.plain.contains s then s2 :: st.plain.erase s2 else st.plain.erase s2
         | _ => st.plain
-      let st' := { st with sig := s', spec := advanceSpec st (sigToListOp op), plain := plain }
+      let st' := { st with sig := s', spec := advanceSpec st op.toList, plain := plain }
       (st', "ok " ++ sigDump s' ++ sawSuffix st.sig op ++ specSuffix st')
     | .error f => ({ st with dead := true }, "fault:" ++ f.name)
   | none =>
